@@ -159,6 +159,9 @@ def check_obsfcst_layout(ctx):
             tgt = st
         elif isinstance(st, ast.Expr) and isinstance(st.value, ast.Call) and dotted(st.value.func) in ("labels.append", "labels.extend"):
             tgt = st
+        elif isinstance(st, ast.Assign) and any(isinstance(n_, ast.ListComp) for n_ in ast.walk(st.value)) \
+                and any(isinstance(n_, ast.Attribute) and n_.attr == "quantiles" for n_ in ast.walk(st.value)):
+            tgt = st          # labels = labels + [... for ... in self.quantiles ...]  (whatever the list is called)
         if tgt is None:
             continue
         comps = [n_ for n_ in ast.walk(tgt) if isinstance(n_, ast.ListComp)]
